@@ -25,7 +25,7 @@ two parts of that geometry on either side of `s.p` (distances to the two end nod
 length `polyLength`. Part III (T13–T14) instantiates the two parameters with the models of C09 and C08 through their registered
 theorems.
 
-Part IV (T15–T21) is about `Model/MapMatchZ.lean`: the same code on networks and tracks WITH ALTITUDES (`LINESTRING(x y z, …)`
+Part IV (T15–T21, T19b) is about `Model/MapMatchZ.lean`: the same code on networks and tracks WITH ALTITUDES (`LINESTRING(x y z, …)`
 read by `NetworkReader`, hand-built networks and GPS tracks with `ENUCoords(x, y, z)`). **Which length the property means.** The
 code measures an edge PLANIMETRICALLY: `computeAbsCurv` sums `distance2DTo` (T15), the assigned point is `ENUCoords(x, y, 0)` on
 the planimetric geometry and `__distToNode` completes the abscissas with `distance2DTo`; so "distances to the edge's two end
@@ -564,6 +564,28 @@ theorem front_end_sound_3d {sqrt : α → α} (hs : SqrtSpec sqrt) (fl : α → 
   obtain ⟨t, ht, hm⟩ := matchLoop_spec3 sqrt fl eps net dec a tracks.toList j r hr
   obtain ⟨h1, h2, h3, h4, h5⟩ := matchOne_spec3 hs fl eps net hcurv dec a t r hm
   exact ⟨t, ht, h1, h2, h4, h5, h3⟩
+
+/-- T19b `front_end_tracks_independent_3d` (T11 with altitudes): the result of the `j`-th track is the result of `__mapOnNetwork` on
+that track alone; a bare `Track` is the collection of that one track; `transition_cost`, `debug`, `verbose` influence nothing;
+when nothing is raised every track has been processed. -/
+theorem front_end_tracks_independent_3d (sqrt : α → α) (fl : α → Int) (eps : α) (net : Net3 α) (dec : Decoder3 α) (a : Args α) :
+    (∀ (tracks : TracksArg3 α) (j : Nat) (r : ResultN3 α), (mapOnNetworkFront3 sqrt fl eps net dec a tracks).1[j]? = some r →
+      ∃ t, tracks.toList[j]? = some t ∧ matchOne3 sqrt fl eps net dec a t = .ok r) ∧
+    (∀ t, mapOnNetworkFront3 sqrt fl eps net dec a (.one t) = mapOnNetworkFront3 sqrt fl eps net dec a (.many [t])) ∧
+    (∀ (a' : Args α) (tracks : TracksArg3 α), a'.gpsNoise = a.gpsNoise → a'.searchRadius = a.searchRadius →
+      mapOnNetworkFront3 sqrt fl eps net dec a' tracks = mapOnNetworkFront3 sqrt fl eps net dec a tracks) ∧
+    (∀ (tracks : TracksArg3 α), (mapOnNetworkFront3 sqrt fl eps net dec a tracks).2 = none →
+      (mapOnNetworkFront3 sqrt fl eps net dec a tracks).1.length = tracks.toList.length) := by
+  refine ⟨fun tracks j r h => matchLoop_spec3 sqrt fl eps net dec a tracks.toList j r h, fun t => rfl, ?_,
+    fun tracks h => matchLoop_complete3 sqrt fl eps net dec a tracks.toList h⟩
+  intro a' tracks h1 h2
+  have hone : ∀ t, matchOne3 sqrt fl eps net dec a' t = matchOne3 sqrt fl eps net dec a t := by
+    intro t; unfold matchOne3; rw [h1, h2]
+  unfold mapOnNetworkFront3
+  generalize tracks.toList = ts
+  induction ts with
+  | nil => rfl
+  | cons t rest ih => simp only [matchLoop3, hone t, ih]
 
 /-- T20 `matched_on_built_network_3d` (T7 and T10b with altitudes): a network built by `addEdge` from edges made the way
 `NetworkReader` makes them from `LINESTRING(x y z, …)` (`computeAbsCurv`, then `Edge`), with pairwise different ids, stores under
